@@ -6,6 +6,15 @@ import wire
 from world import World, W
 
 P = {'p1': (24, b'\x0a\x01\x01', '10.1.1.0/24'), 'p2': (16, b'\x0a\x02', '10.2.0.0/16')}
+# every other pair of histories uses a nested pool: p2 covers p1 (lookups by address then have two candidates)
+P_FLAT = dict(P)
+P_NESTED = {'p1': (24, b'\x0a\x01\x01', '10.1.1.0/24'), 'p2': (16, b'\x0a\x01', '10.1.0.0/16')}
+# lookups made after every step: the pool prefixes themselves and bare addresses; for each the pool prefixes that cover it,
+# longest first
+PROBES = {False: {'p1': ['p1'], 'p2': ['p2'], 'q1': ['p1'], 'q2': ['p2'], 'q3': []},
+          True: {'p1': ['p1', 'p2'], 'p2': ['p2'], 'q1': ['p1', 'p2'], 'q2': ['p2'], 'q3': []}}
+QUERY = {False: {'q1': '10.1.1.5', 'q2': '10.2.3.4', 'q3': '10.9.9.9'}, True: {'q1': '10.1.1.5', 'q2': '10.1.2.5', 'q3': '10.9.9.9'}}
+NESTED = False
 F = {'f1': ((192, 85, 1), '192.85.1.0/24'), 'f2': ((192, 85, 2), '192.85.2.0/24')}
 V = {'v1': (bytes([170, 0, 0, 0]), '170.0.0.0/32'), 'v2': (bytes([171, 0, 0, 0]), '171.0.0.0/32')}
 RD = b'\x00\x00\x00\x64\x00\x00\x00\x64'
@@ -127,16 +136,20 @@ class RibRun(object):
         ribout = {k: 0 for k in P}
         restok = True
         ver = {'in': {'ipv4': 0, 'flowspec': 0, 'mpls_vpn': 0}, 'out': {'ipv4': 0, 'flowspec': 0, 'mpls_vpn': 0}}
+        lookup = {q: ['', 0] for q in PROBES[NESTED]}
         if up:
-            r = w.rest('POST', 'adj-rib-in', body={'data': [P[k][2] for k in P]})
+            qs = {k: P[k][2] for k in P}
+            qs.update(QUERY[NESTED])
+            r = w.rest('POST', 'adj-rib-in', body={'data': sorted(qs.values())})
             js = r.get('json') or {}
             if r['status'] != 200 or not js.get('status'):
                 restok = False
             else:
-                for k in P:
-                    e = js['data'].get(P[k][2]) or {}
-                    if attr_id(e.get('attr')) != ribin[k]:
-                        restok = False
+                names = {P[k][2]: k for k in P}
+                for q, text in qs.items():
+                    e = js['data'].get(text) or {}
+                    if e:
+                        lookup[q] = [names.get(e.get('prefix'), '?'), attr_id(e.get('attr'))]
             r = w.rest('POST', 'adj-rib-out', body={'data': [P[k][2] for k in P]})
             js = r.get('json') or {}
             if r['status'] != 200 or not js.get('status'):
@@ -151,12 +164,15 @@ class RibRun(object):
                 else:
                     for f in ver[d]:
                         ver[d][f] = js.get(f, -1)
-        return ribin, ribout, ver, restok
+        return ribin, ribout, ver, restok, lookup
 
 
 def replay_walk(g, walk, tid):
-    global NHMODE
+    global NHMODE, NESTED
     NHMODE = bool(tid % 2)
+    NESTED = bool((tid // 2) % 2)
+    P.clear()
+    P.update(P_NESTED if NESTED else P_FLAT)
     run = RibRun()
     w = run.w
     lines = [{'tid': tid, 'i': 0, 'k': 'begin', 'd': '', 'f': '', 'shape': ''}]
@@ -188,10 +204,10 @@ def replay_walk(g, walk, tid):
             up = True
         o = w.observe()
         i += 1
-        ribin, ribout, ver, restok = run.observe(up)
+        ribin, ribout, ver, restok, lookup = run.observe(up)
         lines.append({'tid': tid, 'i': i, 'k': k, 'd': ev['d'], 'f': ev['f'], 'wd': ev['wd'], 'nl': ev['nl'], 'a': ev['a'],
                       'shape': 'wd%d-nl%d' % (len(ev['wd']), len(ev['nl'])), 'up': up, 'ribin': ribin, 'ribout': ribout, 'ver': ver,
-                      'restok': restok, 'sendok': sendok, 'exc': len(o['errs'])})
+                      'restok': restok, 'sendok': sendok, 'exc': len(o['errs']), 'lookup': lookup, 'cov': PROBES[NESTED]})
         if drift is None and up and k == 'update':
             mt, mv = obs['tab'], obs['ver']
             same_in = all(ribin.get(k2) == v2 for k2, v2 in mt['in']['ipv4'].items())
